@@ -492,7 +492,17 @@ def scale_groups():
         steps.append([{"op": "solve", "e": 1, "r": 3, "goal": C("mf", V(0)), "qnv": 1, "k": 0}])
         return {"scripts": {}, "steps": steps, "keys": []}
     G["manyfacts"] = [manyfacts(40, 2), manyfacts(70, 34), manyfacts(36, 33)]
-    G["manyfacts-big"] = [manyfacts(1100, 1026)]
+    def manyfacts_rest(n, stop_at, goal, upd):
+        steps = [[{"op": "assertn", "e": 1, "name": "mf", "lo": 0, "n": n, "atEnd": True}]]
+        steps.append([{"op": "query", "e": 1, "r": 1, "goal": goal, "qnv": 1}])
+        steps += [[{"op": "next", "r": 1}]] * stop_at
+        steps.append([upd])
+        steps.append([{"op": "rest", "r": 1, "k": 0}])
+        return {"scripts": {}, "steps": steps, "keys": []}
+    G["manyfacts-big"] = [manyfacts_rest(1100, 2, C("mf", V(0)), {"op": "assert", "e": 1, "term": C("mf", A("first")), "atEnd": False, "r": 0}),
+                          manyfacts_rest(1100, 3, C("retract", C("mf", V(0))), {"op": "solve", "e": 1, "r": 2, "goal": C("retract", C("mf", I(1095))), "qnv": 0, "k": 0})]
+    G["manyfacts-rest"] = [manyfacts_rest(45, 2, C("mf", V(0)), {"op": "assert", "e": 1, "term": C("mf", A("first")), "atEnd": False, "r": 0}),
+                           manyfacts_rest(45, 3, C("retract", C("mf", V(0))), {"op": "solve", "e": 1, "r": 2, "goal": C("retract", C("mf", I(40))), "qnv": 0, "k": 0})]
     # --- a predicate of several hundred clauses with cuts
     col = {"color/2": [clause(C("color", A("k%d" % i), A("first")), CUT) for i in range(300)] + [clause(C("color", V(900), A("default")))],
            "pick/3": [clause(C("pick", V(0), V(1), V(2)), conj_(call(C("color", V(0), V(1))), call(C("color", V(0), V(2)))))],
